@@ -51,6 +51,8 @@ def tasks(tier, pid):
         t += [('plate_transfer',) + c for c in PO.transfer_cases(tier)]
     if pid in ('C07', 'C17', 'C04'):
         t += [('plate_unary',) + c for c in PO.unary_cases(tier)]
+    if pid == 'C03':
+        t.append(('float_bounded', 60 if tier == 'quick' else 2000))
     if pid == 'C10':
         t.append(('syntactic_cached',))
     if pid == 'C04':
@@ -79,6 +81,9 @@ def run(pid, kind, *args):
             if 'frame[arguments]' in r['name'] or r['kind'] in ('cover',) or r['verdict'] == 'unsupported':
                 out.append(dict(r, name=r['name'].replace('C16/', 'C04/')))
         return out
+    if kind == 'float_bounded':
+        from contracts import c03_float
+        return c03_float.run(*args)
     if kind == 'syntactic_cached':
         from contracts import c04_syntactic
         return [dict(r, name=r['name'].replace('C04/', 'C10/')) for r in c04_syntactic.run() if 'cached-results' in r['name']]
